@@ -26,7 +26,7 @@ SPEC = {
     "props": ["props/C30.v"],
     "corr": ["corr/ConnMgr_corr.v"],
     "build_comp": "connmgr",
-    "comps": [{"comp": "connmgr", "n_quick": 120, "n_thorough": 1500}],
+    "comps": [{"comp": "connmgr", "n_quick": 100, "n_thorough": 1500}],
     "trusted": ["gen/Tab_ConnMgr.v is produced by evaluating the real makeTrafficDecision / doTrafficCheck / tryRehandshake / shouldSwapPrimary "
                 "on every abstract row, >= 3 concrete situations each (translator by exhaustive evaluation); soundness of the abstraction is "
                 "sampled, not proved",
